@@ -846,7 +846,14 @@ def source_arity(w: World) -> dict[str, int]:
             return helper_n[helper]
         hf = w.repo.func('parsing', helper)
         incs = []
-        adv = hf.params[2] if len(hf.params) > 2 else None      # (opname, symbols, <advance counter>, ...)
+        # the advance counter is the parameter handed back as the first element of the result pair
+        adv = None
+        for n in ast.walk(hf.node):
+            if isinstance(n, ast.Return) and isinstance(n.value, ast.Tuple) and len(n.value.elts) == 2 and \
+                    isinstance(n.value.elts[0], ast.Name) and n.value.elts[0].id in hf.params:
+                adv = n.value.elts[0].id
+        if adv is None:
+            adv = hf.params[2] if len(hf.params) > 2 else None      # (opname, symbols, <advance counter>, ...)
         for n in ast.walk(hf.node):
             if isinstance(n, ast.AugAssign) and isinstance(n.target, ast.Name) and n.target.id == adv \
                     and isinstance(n.value, ast.Constant):
@@ -856,7 +863,7 @@ def source_arity(w: World) -> dict[str, int]:
                 helper_n[helper] = n_of(n.value.func.id)
                 return helper_n[helper]
         if not incs:
-            raise AnalysisError(f'{helper}: increment of the advance counter (3rd parameter) not found')
+            raise AnalysisError(f'{helper}: increment of the advance counter (the parameter returned first) not found')
         helper_n[helper] = min(incs)
         return helper_n[helper]
 
